@@ -12,6 +12,7 @@ import (
 	"sort"
 	"strings"
 
+	"github.com/RoaringBitmap/roaring/v2"
 	"github.com/sourcegraph/zoekt"
 	"github.com/sourcegraph/zoekt/index"
 	"github.com/sourcegraph/zoekt/query"
@@ -344,6 +345,19 @@ func main() {
 			}
 			qs = append(qs, q)
 		}
+		// directed: RepoSet with false values over this shard's names (newMatchTree, indexData.simplify and
+		// selectRepoSet must read the set the same way), and repository filters that hold for all / some / none
+		if len(s.Repos) >= 2 {
+			set := map[string]bool{}
+			for j, rp := range s.Repos {
+				set[rp.Name] = j%2 == 1
+			}
+			qs = append(qs, &query.RepoSet{Set: set},
+				&query.And{Children: []query.Q{&query.RepoSet{Set: set}, &query.Substring{Pattern: "fo"}}},
+				&query.Not{Child: &query.RepoSet{Set: set}})
+		}
+		qs = append(qs, &query.RepoIDs{Repos: roaring.BitmapOf(s.Repos[0].ID)},
+			&query.Or{Children: []query.Q{query.NewSingleBranchesRepos("HEAD", s.Repos[len(s.Repos)-1].ID), &query.Substring{Pattern: "zz", Content: true}}})
 		rn.real([]*q1q.Shard{s}, 0, qs, "")
 	}
 }
